@@ -116,11 +116,14 @@ class ClassInfo:
         self.aliases: dict[str, ast.expr] = {}
         self.fields: dict[str, tuple[ast.expr | None, ast.expr | None]] = {}  # name -> (annotation, default)
         self.class_consts: dict[str, ast.expr] = {}
+        self.ann_consts: dict[str, ast.expr] = {}      # annotated class attributes with a value (class attributes of a plain class)
         for st in node.body:
             if isinstance(st, ast.FunctionDef):
                 self.methods[st.name] = FuncInfo(st, module, self)
             elif isinstance(st, ast.AnnAssign) and isinstance(st.target, ast.Name):
                 self.fields[st.target.id] = (st.annotation, st.value)
+                if st.value is not None:
+                    self.ann_consts[st.target.id] = st.value
             elif isinstance(st, ast.Assign) and len(st.targets) == 1 and isinstance(st.targets[0], ast.Name):
                 nm = st.targets[0].id
                 if isinstance(st.value, (ast.Name, ast.Attribute)):
@@ -277,6 +280,8 @@ class Program:
                 return ("property" if f.is_property else "method", f)
             if nm in c.class_consts:
                 return ("const", c.class_consts[nm], c)
+            if nm in c.ann_consts and not c.is_pydantic:
+                return ("const", c.ann_consts[nm], c)
         return None
 
     def cls(self, name: str) -> ClassInfo:
